@@ -132,7 +132,9 @@ def check_graph(cfg, sampler, mol):
         for a, d in mol.nodes(data=True):
             el = d.get('element')
             if el == 'H':
-                if mol.degree(a) != 1:
+                # a hydrogen written as a fragment of its own stays as written: bonded once, or alone if nothing was attached to it
+                own = len(templates.get(d.get('fragname'), ())) == 1 and len(mol) == 1
+                if mol.degree(a) != 1 and not (own and mol.degree(a) == 0):
                     out.append(('c16.h_degree', f'{txt}: hydrogen {a} has degree {mol.degree(a)}'))
                 continue
             hv = sum(e.get('order', 1) for _, x, e in mol.edges(a, data=True) if mol.nodes[x].get('element') != 'H')
